@@ -304,7 +304,9 @@ func (fr *Frame) exec(ins ssa.Instruction) {
 		return
 	case *ssa.Alloc:
 		elem := x.Type().Underlying().(*types.Pointer).Elem()
-		if x.Heap && !fr.spec {
+		if (x.Heap && !fr.spec) || allocMeetsPhi(x) {
+			// (a local whose address is merged at a control-flow join, e.g. pa, pb = pb, pa, is modelled as a heap
+			// object too: addresses of local cells are not terms)
 			r := c.freshRef(fr, elem, x.Comment)
 			pv := Val{T: r}
 			fr.vals[x] = pv
@@ -1075,3 +1077,16 @@ func (fr *Frame) convert(x *ssa.Convert) *Term {
 var _ = strings.TrimSpace
 
 func isConstTerm(t *Term) bool { return t != nil && len(t.Args) == 0 && strings.HasPrefix(t.Op, "#") }
+
+// allocMeetsPhi: the address of this local variable is an operand of a phi node.
+func allocMeetsPhi(a *ssa.Alloc) bool {
+	if a.Referrers() == nil {
+		return false
+	}
+	for _, r := range *a.Referrers() {
+		if _, ok := r.(*ssa.Phi); ok {
+			return true
+		}
+	}
+	return false
+}
